@@ -2,14 +2,14 @@
 # C05 = (Run part: owcheck built -race against the rewritten wrappers) + (ow-sim part: the real cmd/ow-sim under the scheduler)
 cd /verif || exit 2
 for a in "$@"; do case "$a" in --replay|--case|--worker) SINGLE=1;; esac; done
-./scripts/sched_build.sh || exit 2
-./scripts/owsim_build.sh || exit 2
+./scripts/sched_build.sh C05 || exit 2
+./scripts/owsim_build.sh C05 || exit 2
 export GORACE="exitcode=0 history_size=2"
 if [ -n "$SINGLE" ]; then
-  case "$*" in *C05.owsim*) exec .build/owsim-check C05 "$@";; *) exec .build/owcheck-sched C05 "$@";; esac
+  case "$*" in *C05.owsim*) exec .build/owsim-check-C05 C05 "$@";; *) exec .build/owcheck-sched-C05 C05 "$@";; esac
 fi
-VERIF_EVIDENCE_SUFFIX=.run .build/owcheck-sched C05 "$@"; rc1=$?
-VERIF_EVIDENCE_SUFFIX=.owsim .build/owsim-check C05 "$@"; rc2=$?
+VERIF_EVIDENCE_SUFFIX=.run .build/owcheck-sched-C05 C05 "$@"; rc1=$?
+VERIF_EVIDENCE_SUFFIX=.owsim .build/owsim-check-C05 C05 "$@"; rc2=$?
 python3 scripts/merge_evidence.py C05 .run .owsim
 [ $rc1 -gt $rc2 ] && exit $rc1
 exit $rc2
